@@ -27,10 +27,10 @@ CHUNK = 128
 SHRINK_LISTS = ("ops",)
 PROBES = {"C20": ["stop:budget", "stop:patience", "stop:reject", "stop:tol", "step-after-stop",
                   "reset-after-stop", "reset-with-stale-patience", "exact-threshold", "batched-mixed",
-                  "driver:optimize", "driver:optimize-again", "driver:optimize-ended-by-exception", "driver:mpc", "driver:icp", "driver:second-call", "first-step-inf", "verbose", "loss==tol", "tol-crossed-slowly", "mpc:default-stepper"]}
+                  "driver:optimize", "driver:optimize-again", "driver:optimize-ended-by-exception", "driver:mpc", "driver:icp", "driver:second-call", "first-step-inf", "verbose", "loss==tol", "tol-crossed-slowly", "mpc:default-stepper", "tiny-loss-magnitudes", "negative-loss"]}
 
 DYADIC = (0.5, 0.25, 1.0, 0.125, 2.0)
-KINDS = ("dec_big", "dec_small", "equal", "increase", "exact_thr", "below_tol", "rejected", "tol_above", "tol_cross")
+KINDS = ("dec_big", "dec_small", "equal", "increase", "exact_thr", "below_tol", "rejected", "tol_above", "tol_cross", "negative")
 
 
 class StepCap(BaseException):
@@ -53,7 +53,8 @@ def generate(seed, tier, prop="C20"):
     tol = r.choice([1e-5, 1e-3, 0.1, 0.0])
     rep = r.choice(["float", "t64", "t32"]) if mode == "plateau" else r.choice(["float", "np64", "nparr", "t64", "t32", "b64", "b32"])
     cfg = {"steps": steps, "patience": patience, "decreasing": dec, "tol": tol, "rep": rep,
-           "batch": r.randint(2, 4) if rep.startswith("b") else 0, "verbose": r.random() < 0.2}
+           "batch": r.randint(2, 4) if rep.startswith("b") else 0, "verbose": r.random() < 0.2,
+           "lscale": r.choice([1.0, 1.0, 1.0, 1e-9, 1e-25]) if mode == "bason" else 1.0}
     plan = {"engine": NAME, "seed": seed, "mode": mode, "config": cfg, "ops": []}
     ro = rng.stream(seed, "ops")
     if mode in ("plateau", "bason"):
@@ -61,12 +62,12 @@ def generate(seed, tier, prop="C20"):
         # swarm: per-run weights of the event alphabet
         w = {k: ro.choice([0, 1, 1, 2, 4]) for k in KINDS}
         if mode == "plateau":
-            w["below_tol"] = 0; w["tol_above"] = 0; w["tol_cross"] = 0
+            w["below_tol"] = 0; w["tol_above"] = 0; w["tol_cross"] = 0; w["negative"] = 0
         else:
             w["rejected"] = 0
             if tol == 0.0:
                 w["below_tol"] = 0; w["tol_above"] = 0; w["tol_cross"] = 0
-            w["tol_above"] = min(w["tol_above"], 1); w["tol_cross"] = min(w["tol_cross"], 2)
+            w["tol_above"] = min(w["tol_above"], 1); w["tol_cross"] = min(w["tol_cross"], 2); w["negative"] = min(w["negative"], 1)
         if dec not in DYADIC:
             w["exact_thr"] = 0
         w["rejected"] = min(w["rejected"], 1)
@@ -285,12 +286,18 @@ def _exec_plateau(plan, out, tr):
 def _exec_bason(plan, out, tr):
     c = plan["config"]
     _mk.buf = None
-    d, tol, rep = float(c["decreasing"]), float(c["tol"]), c["rep"]
+    d, rep = float(c["decreasing"]), c["rep"]
+    ls = float(c.get("lscale", 1.0))
+    if rep.endswith("32") and ls < 1e-20:
+        ls = 1e-20
+    tol = float(c["tol"]) * ls              # the whole loss axis (tolerance included) scaled to tiny magnitudes
+    if ls != 1.0:
+        out.probe("tiny-loss-magnitudes")
     b = max(1, c["batch"])
     mk = lambda: ReduceToBason(steps=c["steps"], patience=c["patience"], decreasing=d, tol=tol, verbose=bool(c.get("verbose")))
     ctl = mk()
     ref = RefCtl(c["steps"], c["patience"])
-    base = max(tol, 1e-6) * 1e5 + 3.0
+    base = (max(tol, 1e-6 * ls) * 1e5 + 3.0 * ls)
     cur = [base * (1 + 0.1 * k) for k in range(b)]
     last = [math.inf] * b
     if not ctl.continual():
@@ -334,6 +341,8 @@ def _exec_bason(plan, out, tr):
                 v = prev / (1 + d * 0.6 * f)
             elif kind == "increase":
                 v = prev * (1.05 + f)
+            elif kind == "negative":
+                v = -base * (0.1 + f)            # a negative loss (e.g. an LQ cost with a linear term): below any tol >= 0
             elif kind == "tol_above" and tol > 0:
                 v = tol * (1.01 + 0.05 * f)      # just above the tolerance
             elif kind == "tol_cross" and tol > 0:
@@ -346,7 +355,7 @@ def _exec_bason(plan, out, tr):
                 v = tol * (0.01 + 0.8 * f)
             else:
                 v = prev
-            if kind not in ("below_tol", "tol_above", "tol_cross") and v < 20 * tol:
+            if kind not in ("below_tol", "tol_above", "tol_cross", "negative") and v < 20 * tol:
                 v = base * (1 + f)          # keep away from tol unless asked for
             new.append(v)
         vo = _mk(rep, new)
@@ -355,6 +364,21 @@ def _exec_bason(plan, out, tr):
         dd = _exact(float(torch.tensor(d, dtype=vo.dtype)) if torch.is_tensor(vo) else d)
         tt = _exact(float(torch.tensor(tol, dtype=vo.dtype)) if torch.is_tensor(vo) else tol)
         fails, near = [], False
+        if all(e < 0 for e in eo) and all(e < tt for e in eo):
+            # every loss negative, hence below tol: the tol clause stops the loop at this step whatever the (ill-defined)
+            # relative decrease says; nothing after this step is judged in this run
+            was = ref.stopped
+            ref.n += 1
+            causes = ["tol"] + (["budget"] if ref.n >= ref.steps else [])
+            if not ref.stopped:
+                ref.stopped, ref.cause = True, causes
+            ctl.step(vo)
+            out.probe("negative-loss")
+            if bool(ctl.continual()):
+                raise Violation("C20.continual", "bason: after op %d (all losses negative, tol=%g) continual() is still True" % (i, tol),
+                                i, "bason:continual:negative")
+            out.sim_time += 1; out.ops += 1
+            break
         if any(e <= 0 for e in eo):
             out.declined("C20.loss-outside-alphabet"); continue        # e.g. a value that rounds to 0 in float32
         for k in range(b):
